@@ -254,7 +254,9 @@ func c15Reader(c *Ctx, i int64) {
 	}
 	for k := 1; k <= N; k++ {
 		for _, withData := range []bool{false, true} {
-			src := &gen.Source{Data: s.frame, FailAt: k, FailData: withData, Budget: 100000}
+			// the look of the error value rotates (own type / wraps io.EOF / wraps io.ErrUnexpectedEOF / bare io.ErrUnexpectedEOF)
+			ek := (k + b2i(withData) + int(i)) % gen.NumErrKinds
+			src := &gen.Source{Data: s.frame, FailAt: k, FailData: withData, ErrKind: ek, Budget: 100000}
 			c.Tag("source-fault/" + mc)
 			res := readWith(c, src, conc, mode, s.cfg.blockMax(), g)
 			c.Count("source_fault_points", 1)
@@ -262,7 +264,7 @@ func c15Reader(c *Ctx, i int64) {
 				continue
 			}
 			det := func() map[string]interface{} {
-				return map[string]interface{}{"seed": s.name, "failing_source_call": k, "of": N, "with_data": withData, "reader_conc": conc, "read_mode": rdNames[mode], "err": fmt.Sprint(res.err), "delivered": len(res.out)}
+				return map[string]interface{}{"seed": s.name, "failing_source_call": k, "of": N, "with_data": withData, "reader_conc": conc, "read_mode": rdNames[mode], "err": fmt.Sprint(res.err), "delivered": len(res.out), "error_kind": []string{"plain", "wraps io.EOF", "wraps io.ErrUnexpectedEOF", "bare io.ErrUnexpectedEOF"}[ek]}
 			}
 			if len(src.Errs) == 0 {
 				// the reader finished before the k-th call (possible when the failing call carried the last bytes)
@@ -271,13 +273,15 @@ func c15Reader(c *Ctx, i int64) {
 			switch {
 			case res.err == nil:
 				c.Violation("source-error-became-clean-eof/"+mc+"/"+rdNames[mode], fmt.Sprintf("the source failed at its call %d of %d but the Reader(conc %d, %s) reported a clean end of stream after %d bytes [seed %q]", k, N, conc, rdNames[mode], len(res.out), s.name), det())
+			case ek == gen.ErrBareUnexpectedEOF && errors.Is(res.err, io.ErrUnexpectedEOF):
+				// passed through
 			case !isInjected(res.err, src.Errs):
 				c.Violation("source-error-replaced/"+mc+"/"+rdNames[mode], fmt.Sprintf("the source failed at its call %d (%v) but the Reader(conc %d, %s) returned %v [seed %q]", k, src.Errs[0], conc, rdNames[mode], res.err, s.name), det())
 			}
 			if len(res.out) > len(s.input) || !bytes.Equal(res.out, s.input[:len(res.out)]) {
 				c.Violation("delivered-bytes-not-a-prefix/"+mc, fmt.Sprintf("after a source failure at call %d the %d delivered bytes are not a prefix of the content [seed %q]", k, len(res.out), s.name), det())
 			}
-			c.Cell(fmt.Sprintf("reader/%s/conc%d/%s/k=%s/data=%v", s.name, conc, rdNames[mode], kClass(k, N), withData))
+			c.Cell(fmt.Sprintf("reader/%s/conc%d/%s/k=%s/data=%v/errkind%d", s.name, conc, rdNames[mode], kClass(k, N), withData, ek))
 		}
 	}
 	if i%13 == 0 {
